@@ -26,7 +26,10 @@ import (
 	"fmt"
 	"net/http"
 	"net/http/httptest"
+	"net/url"
+	"os"
 	"path"
+	"path/filepath"
 	"sort"
 	"strings"
 	"testing"
@@ -83,6 +86,7 @@ type regT struct {
 type reqT struct {
 	method string
 	path   string // assigned to URL.Path
+	query  string // assigned to URL.RawQuery; must not influence dispatch
 }
 
 type caseT struct {
@@ -97,7 +101,7 @@ var (
 	// pattern segment choices, simplest first; the tail holds literals with odd spellings
 	patSegs = []string{"a", varKind, "b", varKind, "a", "c", "ab", varKind, "a.b", "...", "a:b", "A"}
 	// request segment choices: the pattern literals plus foreign segments
-	reqSegs = []string{"a", "b", "c", "ab", "x", "a", "b", "1", "a.b", "...", "a:b", "A", ":v", "%61", " ", "é", "a b", ".a", "..b"}
+	reqSegs = []string{"a", "b", "c", "ab", "x", "a", "b", "a", "1", "a.b", "...", "a:b", "A", ":v", "%61", " ", "é", "a b", ".a", "..b", ":v0"}
 )
 
 // varName is the statement's precondition made constructive: the name depends only on the
@@ -137,24 +141,25 @@ func joinSegs(segs []string) string { return "/" + strings.Join(segs, "/") }
 func genPatSeg(s source) string { return patSegs[s.intn(len(patSegs), "patSeg")] }
 
 func genKinds(s source, existing [][]string) []string {
-	if len(existing) > 0 && s.intn(5, "derive") >= 3 {
+	if len(existing) > 0 && s.intn(6, "derive") >= 3 {
 		base := existing[s.intn(len(existing), "base")]
 		k := append([]string(nil), base...)
-		switch s.intn(4, "deriveOp") {
-		case 0: // flip literal <-> variable at one position: sibling branches of both kinds
-			if len(k) > 0 {
-				i := s.intn(len(k), "flipAt")
-				if k[i] == varKind {
-					k[i] = "a"
-				} else {
-					k[i] = varKind
-				}
+		op := s.intn(7, "deriveOp")
+		if (op == 0 || op >= 4) && len(k) > 0 {
+			// flip literal <-> variable at one position: sibling branches of both kinds
+			i := s.intn(len(k), "flipAt")
+			if k[i] == varKind {
+				k[i] = "a"
+			} else {
+				k[i] = varKind
 			}
-		case 1:
+		}
+		switch op {
+		case 1, 5: // another tail: with a flip in front, the two branches diverge only at the end
 			if len(k) > 0 {
 				k[len(k)-1] = genPatSeg(s)
 			}
-		case 2:
+		case 2, 6:
 			if len(k) < 4 {
 				k = append(k, genPatSeg(s))
 			}
@@ -332,7 +337,9 @@ func genCase(s source) caseT {
 		default:
 			method = []string{"TRACE", "CONNECT", "get", "FOO"}[s.intn(4, "reqBadMethod")]
 		}
-		c.reqs = append(c.reqs, reqT{method, dirtyPath(s, segs)})
+		p := dirtyPath(s, segs)
+		q := []string{"", "", "", "", "", "a=b", "p=/a/b/../c&v0=x", "/a"}[s.intn(8, "query")]
+		c.reqs = append(c.reqs, reqT{method, p, q})
 	}
 	return c
 }
@@ -667,7 +674,8 @@ func (h *harness) serve(m *model, rq reqT, fail failFn) reqInfo {
 	r.Method = rq.method
 	r.URL.Path = rq.path
 	r.URL.RawPath = ""
-	r.RequestURI = rq.path
+	r.URL.RawQuery = rq.query
+	r.RequestURI = (&url.URL{Path: rq.path, RawQuery: rq.query}).RequestURI() // what a server would have seen on the wire
 	w := httptest.NewRecorder()
 	h.calls = h.calls[:0]
 	if p := safely(func() { h.rt.ServeHTTP(w, r) }); p != nil {
@@ -677,8 +685,8 @@ func (h *harness) serve(m *model, rq reqT, fail failFn) reqInfo {
 	}
 
 	ctx := func() string {
-		return fmt.Sprintf("\nrequest: %s %q (cleaned %q)\nroutes: %s\nhistory: %s",
-			rq.method, rq.path, cp, m.table(), strings.Join(m.regLog, "; "))
+		return fmt.Sprintf("\nrequest: %s %q query %q (cleaned %q)\nroutes: %s\nhistory: %s",
+			rq.method, rq.path, rq.query, cp, m.table(), strings.Join(m.regLog, "; "))
 	}
 	got := func() string {
 		var cs []string
@@ -829,6 +837,7 @@ func TestVerifC09Examples(t *testing.T) {
 				{"GET", "/../", outDispatch, 4, nil, nil},
 				{"PUT", "/a/b/c", outNotAllowed, 0, nil, []string{"GET", "POST"}},
 				{"POST", "/a/b", outNotAllowed, 0, nil, []string{"GET"}},
+				{"PUT", "//a/./b/x/../c/", outNotAllowed, 0, nil, []string{"GET", "POST"}},
 				{"TRACE", "/a", outNotAllowed, 0, nil, []string{"DELETE"}},
 				{"DELETE", "/", outDispatch, 5, map[string]string{"y": ""}, nil}, // root = one empty segment
 				{"POST", "/", outNotAllowed, 0, nil, []string{"DELETE", "GET"}},
@@ -856,7 +865,7 @@ func TestVerifC09Examples(t *testing.T) {
 			}
 		}
 		for _, wn := range tb.wants {
-			info := h.serve(m, reqT{wn.method, wn.path}, fail)
+			info := h.serve(m, reqT{wn.method, wn.path, ""}, fail)
 			e := info.exp
 			ok := e.kind == wn.kind
 			if ok && wn.kind == outDispatch {
@@ -943,6 +952,46 @@ func FuzzVerifC09Router(f *testing.F) {
 	})
 }
 
+// recSrc records the choices of another source as bytes; the record decodes (through
+// byteSrc) to the same case, which is how the fuzz seed corpus in corpus/ was produced.
+type recSrc struct {
+	inner source
+	rec   []byte
+}
+
+func (s *recSrc) intn(n int, label string) int {
+	v := s.inner.intn(n, label)
+	if n > 1 {
+		s.rec = append(s.rec, byte(v))
+	}
+	return v
+}
+
+// TestVerifC09DumpSeeds is a development aid (not part of any unit): with
+// VERIF_C09_DUMPSEEDS=<dir> it writes non-trivial generated cases as fuzz corpus files.
+func TestVerifC09DumpSeeds(t *testing.T) {
+	dir := os.Getenv("VERIF_C09_DUMPSEEDS")
+	if dir == "" {
+		t.Skip("development aid")
+	}
+	logx.Disable()
+	st := verifkit.New("dumpseeds")
+	n := 0
+	rapid.Check(t, func(t *rapid.T) {
+		rs := &recSrc{inner: rapidSrc{t}}
+		c := genCase(rs)
+		_, nt := runCase(c, st, t.Fatalf)
+		if len(nt) < 2 || n >= 24 || len(rs.rec) > 400 {
+			return
+		}
+		n++
+		body := fmt.Sprintf("go test fuzz v1\n[]byte(%q)\n", string(rs.rec))
+		if err := os.WriteFile(filepath.Join(dir, fmt.Sprintf("seed-%02d", n)), []byte(body), 0o644); err != nil {
+			t.Fatalf("write: %v", err)
+		}
+	})
+}
+
 // ---------------------------------------------------------------- exhaustive small tables
 
 // TestVerifC09Exhaustive enumerates every table of at most VERIF_MAXROUTES routes over
@@ -981,7 +1030,7 @@ func TestVerifC09Exhaustive(t *testing.T) {
 	prec = func(segs []string) {
 		p := "/" + strings.Join(segs, "/")
 		for _, mth := range []string{"GET", "POST", "PUT"} {
-			reqs = append(reqs, reqT{mth, p})
+			reqs = append(reqs, reqT{mth, p, ""})
 		}
 		if len(segs) == 4 {
 			return
@@ -1028,6 +1077,8 @@ func TestVerifC09Exhaustive(t *testing.T) {
 		}
 	}
 	walk(0, nil)
-	st.Note("exhaustive: %d patterns x 2 methods, tables of <= %d routes: %d tables in total, shard %d/%d; %d requests per table",
-		len(pats), maxRoutes, index, shard, shards, len(reqs))
+	if shard == 0 {
+		st.Note("%d patterns x 2 methods, tables of <= %d routes: %d tables in total, shard %d/%d; %d requests per table",
+			len(pats), maxRoutes, index, shard, shards, len(reqs))
+	}
 }
